@@ -101,7 +101,7 @@ def oracle_fcfs(case, lines, runner=None):
     return []
 
 def run(ctx):
-    res = kprops.run_kernel(ctx, 'C07', SPEC, 1500, 40000, oracles=[oracle_bounds, oracle_heads, oracle_handout, oracle_conservation, oracle_fcfs],
+    res = kprops.run_kernel(ctx, 'C07', SPEC, 1500, 40000, attribute=kprops.stop_is_not_the_cause, oracles=[oracle_bounds, oracle_heads, oracle_handout, oracle_conservation, oracle_fcfs],
                              nontrivial=lambda c, lines: any(('pq' in l and not re.search(r'pq0 gq0', l)) for l in lines if l.startswith('S ')),
                              rule='seeded put/get/cancel histories of 2-8 processes on containers and the three stores; non-trivial = distinct history in which some request had to queue')
     res['coverage'].update(kbridge.coverage('C07'))
